@@ -16,9 +16,9 @@ ACTIONS = ("AddAtom", "AppendAtom", "Connect", "AppendBond", "DelBond", "DelAtom
            "DelAtomElem", "RemoveSubstituent", "AddH", "SubTranslate", "Clone", "MakeView", "ViewTranslate")
 
 
-def cfg(ids, fresh, maxlive, charges, dev="DevNone"):
+def cfg(ids, fresh, maxlive, charges, dev="DevNone", maxview=1):
     return dict(spec="Spec", constants={"AtomId": f"<- {ids}", "Fresh": f"<- {fresh}", "FreshAP": "<- AP1", "ElemOf": "<- ElemM", "LabelOf": "<- LabelM",
-                                        "Valence": "<- ValM", "QGiven": "<- QG", "MaxLive": maxlive, "MaxView": 1,
+                                        "Valence": "<- ValM", "QGiven": "<- QG", "MaxLive": maxlive, "MaxView": maxview,
                                         "HasCharges": "TRUE" if charges else "FALSE", "Deviations": f"<- {dev}"},
                 invariants=INV, properties=PROPS, view="View")
 
@@ -40,11 +40,12 @@ def norm_act(a):
     return a
 
 
-def one(tier, seed, ev, rep, kind, ids, fresh, maxlive, budget):
+def one(tier, seed, ev, rep, kind, ids, fresh, maxlive, budget, maxview=1):
     from ..adapters.moledit import MolEditAdapter
-    c = cfg(ids, fresh, maxlive, kind == "Molecule")
-    model_check(ev, "MCMolEdit", c, role=f"MolEdit {kind} {ids} {fresh} live<={maxlive}", tag="c05mc", require_actions=ACTIONS,
-                timeout=1800)
+    c = cfg(ids, fresh, maxlive, kind == "Molecule", maxview=maxview)
+    acts = ACTIONS if maxview > 0 else tuple(a for a in ACTIONS if a not in ("MakeView", "ViewTranslate"))
+    model_check(ev, "MCMolEdit", c, role=f"MolEdit {kind} {ids} {fresh} live<={maxlive} view<={maxview}", tag="c05mc",
+                require_actions=acts, timeout=1800)
     edges = emit_graph(ev, "MCMolEdit", c, role=f"MolEdit edges {kind}", tag="c05emit", timeout=1800)
     for e in edges:
         e["obs"] = norm(e["obs"])
@@ -53,7 +54,7 @@ def one(tier, seed, ev, rep, kind, ids, fresh, maxlive, budget):
     del edges
     stats, viol, _, _, samples = replay.cover(g, lambda: MolEditAdapter(kind), seed=seed, max_path=40, budget_s=budget)
     ev.count(evaluations=stats["steps"], distinct_nontrivial=stats["pairs_exercised"], traces=stats["paths"])
-    ev.cov.setdefault("replay", {})[f"{kind},{ids},{fresh},{maxlive}"] = stats
+    ev.cov.setdefault("replay", {})[f"{kind},{ids},{fresh},{maxlive},view{maxview}"] = stats
     ev.add_samples([{"kind": kind, "path": s} for s in samples], 1)
     seen = set()
     for v in viol:
@@ -119,9 +120,9 @@ def run(tier, seed, replay_path):
         one(tier, seed, ev, rep, "Molecule", "Ids3", "Fr1", 2, budget=30)
         one(tier, seed, ev, rep, "Structure", "Ids3", "Fr1", 2, budget=12)
     else:
-        one(tier, seed, ev, rep, "Molecule", "Ids3", "Fr2", 3, budget=420)
-        one(tier, seed, ev, rep, "Structure", "Ids3", "Fr1", 3, budget=150)
-        one(tier, seed, ev, rep, "Molecule", "Ids4", "Fr1", 3, budget=200)
+        one(tier, seed, ev, rep, "Molecule", "Ids3", "Fr1", 3, budget=240, maxview=0)
+        one(tier, seed, ev, rep, "Molecule", "Ids3", "Fr1", 2, budget=150, maxview=2)
+        one(tier, seed, ev, rep, "Structure", "Ids3", "Fr1", 2, budget=90, maxview=1)
     direction_b(tier, seed, ev, rep)
     ev.set(rule="one case = one (model state, edit call) pair of the TLC graph replayed on a real Molecule/Structure; the "
                 "observation is keyed by atom identity; distinct_nontrivial = distinct pairs exercised within the time budget")
